@@ -85,6 +85,37 @@ fn program(expr: &str, ty: &str, pos: &str, tmpl: &str) -> String {
     )
 }
 
+/// calls whose effect is not in the called function itself: (name, functions in "natural" order, the
+/// call, lines printed, how the program ends, value of the cell afterwards)
+const INDIRECT: [(&str, &[&str], &str, &str, &str, i32); 14] = [
+    ("through-one-callee", &["fn outer1(x: int32) -> int32 { inner1(x) }", "fn inner1(x: int32) -> int32 { string_println(\"inner\"); x }"], "outer1(k)", "inner\n", "ok", 4),
+    ("through-two-callees", &["fn outer2(x: int32) -> int32 { mid2(x) + 1 }", "fn mid2(x: int32) -> int32 { inner2(x) }", "fn inner2(x: int32) -> int32 { string_println(\"inner\"); x }"], "outer2(k)", "inner\n", "ok", 4),
+    ("cycle-of-two-entered-at-the-silent-one", &["fn ping(n: int32) -> int32 { if n <= 0 { 0 } else { string_println(\"ping\"); pong(n - 1) } }", "fn pong(n: int32) -> int32 { if n <= 0 { 0 } else { ping(n - 1) } }"], "pong(2)", "ping\n", "ok", 4),
+    ("cycle-of-two-entered-at-the-printing-one", &["fn ping(n: int32) -> int32 { if n <= 0 { 0 } else { string_println(\"ping\"); pong(n - 1) } }", "fn pong(n: int32) -> int32 { if n <= 0 { 0 } else { ping(n - 1) } }"], "ping(3)", "ping\nping\n", "ok", 4),
+    ("cycle-of-three", &["fn ca(n: int32) -> int32 { if n <= 0 { 0 } else { cb(n - 1) } }", "fn cb(n: int32) -> int32 { if n <= 0 { 0 } else { cc(n - 1) } }", "fn cc(n: int32) -> int32 { if n <= 0 { 0 } else { string_println(\"cc\"); ca(n - 1) } }"], "ca(3)", "cc\n", "ok", 4),
+    ("self-recursion", &["fn count(n: int32) -> int32 { if n <= 0 { 0 } else { string_println(\"count\"); count(n - 1) } }"], "count(2)", "count\ncount\n", "ok", 4),
+    ("cell-write-in-a-callee", &["fn via(c: Ref[int32]) -> int32 { bump(c) }", "fn bump(c: Ref[int32]) -> int32 { ref_set(c, 40); 1 }"], "via(cell)", "", "ok", 40),
+    ("cell-write-in-a-cycle", &["fn wa(c: Ref[int32], n: int32) -> int32 { if n <= 0 { 0 } else { ref_set(c, ref_get(c) + 18); wb(c, n - 1) } }", "fn wb(c: Ref[int32], n: int32) -> int32 { if n <= 0 { 0 } else { wa(c, n - 1) } }"], "wb(cell, 4)", "", "ok", 40),
+    ("failing-read-in-a-callee", &["fn viabad(v: Vec[int32]) -> int32 { bad(v) }", "fn bad(v: Vec[int32]) -> int32 { vec_get(v, 5) }"], "viabad(vi)", "", "trap-index", 4),
+    ("failing-division-in-a-callee", &["fn viaquot(a: int32, b: int32) -> int32 { quot(a, b) }", "fn quot(a: int32, b: int32) -> int32 { a / b }"], "viaquot(k, zero)", "", "trap-div0", 4),
+    ("through-a-function-value", &["fn runit(f: (int32) -> int32, x: int32) -> int32 { f(x) }"], "runit(say, k)", "say\n", "ok", 4),
+    ("through-a-method", &["impl St { fn relay(self: St) -> int32 { self.shout() } }"], "st.relay()", "shout\n", "ok", 4),
+    ("through-a-trait-bound", &["fn gen[T: Speak](x: T) -> int32 { Speak::speak(x) }", "trait Speak { fn speak(Self) -> int32; }", "impl Speak for St { fn speak(self: St) -> int32 { string_println(\"speak\"); self.a } }"], "gen(st)", "speak\n", "ok", 4),
+    ("through-a-dyn-call", &["fn dy(d: dyn Speak) -> int32 { Speak::speak(d) }", "trait Speak { fn speak(Self) -> int32; }", "impl Speak for St { fn speak(self: St) -> int32 { string_println(\"speak\"); self.a } }"], "dy(st)", "speak\n", "ok", 4),
+];
+
+const ORDERS: [&str; 3] = ["as-listed-before-main", "reversed-before-main", "after-main"];
+
+fn indirect_program(fns: &[&str], order: &str, expr: &str, tmpl: &str) -> String {
+    let mut listed: Vec<&str> = fns.to_vec();
+    if order == "reversed-before-main" {
+        listed.reverse();
+    }
+    let helpers = listed.join("\n") + "\n";
+    let main = format!("fn main() {{\n{}    string_println(\"before\");\n{}    string_println(\"after \" + int32_to_string(ref_get(cell)))\n}}\n", SETUP, tmpl.replace('§', expr));
+    if order == "after-main" { format!("{}{}{}", DECLS, main, helpers) } else { format!("{}{}{}", DECLS, helpers, main) }
+}
+
 pub struct Discard;
 
 impl Family for Discard {
@@ -95,7 +126,7 @@ impl Family for Discard {
         &["C09", "C02", "C01"]
     }
     fn rule(&self) -> &'static str {
-        "34 expressions (variables, literals, arithmetic, a division that fails, tuples, projections, fields, constructors, closures, calls / method calls / closure calls that print, the builtins that are expanded in place: vec_get in and out of range, on a vector of units, nested; vec_len, vec_push, array_get, array_set, ref, ref_get, ref_set; if / match / && with a printing operand) x 14 positions in which the value is dropped (statement, let _, unused let, statement and tail of a while body, of an if branch, of a match arm, of a closure body, tail of a function whose result is dropped, unused tuple component, argument of a function that ignores it); oracle: if accepted, the Go is valid, the stage IRs are consistent, and the program prints 'before', then what the expression prints, then fails as the expression fails or prints 'after' with the cell's value (a rejection with a diagnostic is a verdict, not a finding: the tail positions need a unit). non-trivial = expressions that print, write or fail; distinct = distinct source text"
+        "34 expressions (variables, literals, arithmetic, a division that fails, tuples, projections, fields, constructors, closures, calls / method calls / closure calls that print, the builtins that are expanded in place: vec_get in and out of range, on a vector of units, nested; vec_len, vec_push, array_get, array_set, ref, ref_get, ref_set; if / match / && with a printing operand) x 14 positions in which the value is dropped (statement, let _, unused let, statement and tail of a while body, of an if branch, of a match arm, of a closure body, tail of a function whose result is dropped, unused tuple component, argument of a function that ignores it); plus 14 calls whose effect lies behind the called function (one and two callees down, in a cycle of two entered at either member, in a cycle of three, in a self-recursive function, a cell written in a callee and in a cycle, a failing read and a failing division in a callee, behind a function value, a method, a trait bound, a dyn call) x 3 orders of the functions (as listed, reversed, after main) x the 9 positions that take a value of any type; oracle: if accepted, the Go is valid, the stage IRs are consistent, and the program prints 'before', then what the expression prints, then fails as the expression fails or prints 'after' with the cell's value (a rejection with a diagnostic is a verdict, not a finding: the tail positions need a unit). non-trivial = expressions that print, write or fail; distinct = distinct source text"
     }
     fn cases(&self, _tier: Tier) -> Box<dyn Iterator<Item = Value> + '_> {
         let mut v = Vec::new();
@@ -108,19 +139,42 @@ impl Family for Discard {
                 v.push(json!({"position": p, "expr": e}));
             }
         }
+        for (p, _, unit_only) in POSITIONS {
+            if unit_only || p == "function-body-tail-dropped" || p == "closure-body-tail" {
+                continue;
+            }
+            for (e, ..) in INDIRECT {
+                for o in ORDERS {
+                    v.push(json!({"position": p, "indirect": e, "order": o}));
+                }
+            }
+        }
         Box::new(v.into_iter())
     }
     fn run(&self, case: &Value, ctx: &mut Ctx) -> Report {
         let mut rep = Report::default();
-        let (pn, en) = (case["position"].as_str().unwrap(), case["expr"].as_str().unwrap());
+        let pn = case["position"].as_str().unwrap();
         let (_, tmpl, unit_only) = POSITIONS.iter().find(|(n, _, _)| *n == pn).unwrap();
-        let (_, expr, ty, prints, end) = EXPRS.iter().find(|(n, _, _, _, _)| *n == en).unwrap();
-        let text = program(expr, ty, pn, tmpl);
-        let site = format!("position={};expr={}", pn, en);
-        let cell = if en == "ref-set" { 40 } else { 4 };
+        let indirect = case["indirect"].as_str().map(|n| INDIRECT.iter().find(|(x, ..)| *x == n).unwrap());
+        let en = case["expr"].as_str().or(case["indirect"].as_str()).unwrap();
+        let (expr, ty, prints, end, cell_after) = match indirect {
+            Some((_, _, expr, prints, end, cell)) => (expr, &"int32", prints, end, *cell),
+            None => {
+                let (_, expr, ty, prints, end) = EXPRS.iter().find(|(n, _, _, _, _)| *n == en).unwrap();
+                (expr, ty, prints, end, if en == "ref-set" { 40 } else { 4 })
+            }
+        };
+        let (text, site) = match indirect {
+            Some((_, fns, ..)) => {
+                let order = case["order"].as_str().unwrap();
+                (indirect_program(fns, order, expr, tmpl), format!("position={};indirect-effect={};functions={}", pn, en, order))
+            }
+            None => (program(expr, ty, pn, tmpl), format!("position={};expr={}", pn, en)),
+        };
+        let cell = cell_after;
         let want_out = if *end == "ok" { format!("before\n{}after {}\n", prints, cell) } else { format!("before\n{}", prints) };
         let replay = json!({"kind": "differential", "family": "discard", "case": case, "source": text, "expected": {"stdout": want_out, "end": end}});
-        if !prints.is_empty() || *end != "ok" || en == "ref-set" {
+        if !prints.is_empty() || *end != "ok" || cell != 4 {
             rep.nontrivial_key = Some(text.clone());
         }
         let path = ctx.scratch.single_path();
